@@ -439,6 +439,23 @@ func (mw *macroWorld) builtin(name string, args []interface{}) (interface{}, err
 			return numSx(a + b), nil
 		}
 		return numSx(a - b), nil
+	case "list?", "vector?", "symbol?", "sequential?":
+		if err := need(1); err != nil {
+			return nil, err
+		}
+		as, ok := args[0].(*sx)
+		if !ok {
+			return boolSx(false), nil
+		}
+		switch name {
+		case "list?":
+			return boolSx(as.kind == "list"), nil
+		case "vector?":
+			return boolSx(as.kind == "vector"), nil
+		case "symbol?":
+			return boolSx(as.kind == "sym" && as.text != "nil" && as.text != "true" && as.text != "false"), nil
+		}
+		return boolSx(as.kind == "list" || as.kind == "vector"), nil
 	case "throw":
 		return nil, fmt.Errorf("throw during expansion")
 	}
@@ -519,6 +536,15 @@ func (mw *macroWorld) nonTail(f *sx, t string, depth int) (string, error) {
 	case "quote":
 		return "", nil
 	}
+	if h == t {
+		// the call of t itself is the tail call; t must not also occur among its arguments
+		for _, a := range f.items[1:] {
+			if containsSym(a, t) {
+				return "as an argument of (" + h + " …)", nil
+			}
+		}
+		return "", nil
+	}
 	if containsSym(f, t) {
 		return "as an argument of (" + h + " …)", nil
 	}
@@ -527,7 +553,7 @@ func (mw *macroWorld) nonTail(f *sx, t string, depth int) (string, error) {
 
 // macroTailRule is C08.lisp.
 func macroTailRule(w *World, r *Report, rule string) {
-	r.rule(rule, "in the expansion of the library macros cond, and, or (computed by a symbolic macro expander over the embedded headers, operands opaque) the last operand - for cond every branch value - sits in tail position of the if/let/do forms it expands to")
+	r.rule(rule, "in the expansion of the library macros cond, and, or, -> and ->> (computed by a symbolic macro expander over the embedded headers, operands opaque) the last operand - for cond every branch value, for the threading macros the call of the last step - sits in tail position of the if/let/do forms it expands to")
 	files, err := w.lispFiles()
 	if err != nil {
 		r.undecided(rule, nil, "lisp headers", token.NoPos, err.Error())
@@ -544,6 +570,12 @@ func macroTailRule(w *World, r *Report, rule string) {
 	for _, f := range files {
 		for _, form := range f.forms {
 			form.walk(func(s *sx) {
+				// plain function definitions of the headers are available to the macros (reduce, _iter-> …)
+				if s.head() == "def" && len(s.items) == 3 && s.items[1].kind == "sym" && s.items[2].head() == "fn" && len(s.items[2].items) >= 3 {
+					if _, dup := root.vars[s.items[1].text]; !dup {
+						root.vars[s.items[1].text] = &lfn{params: s.items[2].items[1], body: s.items[2].items[2:], env: root}
+					}
+				}
 				if s.head() == "defmacro" && len(s.items) == 3 && s.items[1].kind == "sym" && s.items[2].head() == "fn" && len(s.items[2].items) >= 3 {
 					d := mdef{&lfn{params: s.items[2].items[1], body: s.items[2].items[2:], env: root}, f.path + ":" + s.items[1].text}
 					defs[s.items[1].text] = append(defs[s.items[1].text], d)
@@ -580,6 +612,19 @@ func macroTailRule(w *World, r *Report, rule string) {
 			targets = append(targets, fmt.Sprintf("value%d", i+1))
 		}
 		cases = append(cases, tcase{"cond", listSx(append([]*sx{symSx("cond")}, items...)...), targets})
+	}
+	// threading macros: the last step is the call the whole form becomes
+	for _, name := range []string{"->", "->>"} {
+		for nsteps := 1; nsteps <= 3; nsteps++ {
+			items := []*sx{symSx(name), symSx("start")}
+			for i := 1; i < nsteps; i++ {
+				items = append(items, listSx(symSx(fmt.Sprintf("step%d", i)), symSx(fmt.Sprintf("arg%d", i))))
+			}
+			items = append(items, listSx(symSx("laststep"), symSx("lastarg")))
+			cases = append(cases, tcase{name, listSx(items...), []string{"laststep"}})
+		}
+		// a bare symbol as the last step
+		cases = append(cases, tcase{name, listSx(symSx(name), symSx("start"), listSx(symSx("step1")), symSx("laststep")), []string{"laststep"}})
 	}
 	n := 0
 	for _, c := range cases {
